@@ -156,7 +156,12 @@ def script_cache_check(filename, cachefname):
     run_cached = False
     if os.path.isfile(cachefname):
         if os.stat(cachefname).st_mtime >= os.stat(filename).st_mtime:
-            with open(cachefname, "rb") as cfile:
+            try:
+                cfile = open(cachefname, "rb")
+            except OSError:
+                # Cache file cannot be read (permissions, ...): ignore it.
+                return False, None
+            with cfile:
                 if not _check_cache_versions(cfile):
                     return False, None
                 try:
@@ -210,7 +215,12 @@ def code_cache_check(cachefname):
     ccode = None
     run_cached = False
     if os.path.isfile(cachefname):
-        with open(cachefname, "rb") as cfile:
+        try:
+            cfile = open(cachefname, "rb")
+        except OSError:
+            # Cache file cannot be read (permissions, ...): ignore it.
+            return False, None
+        with cfile:
             if not _check_cache_versions(cfile):
                 return False, None
             try:
